@@ -688,7 +688,9 @@ def i_laws(ctx):
     coll[0] = coll[0] + [[0.25, 1.0], [3.0, 7.5]]          # a positive spread for the fit
     if r.random() < 0.3:
         coll.insert(r.randint(1, len(coll)), [])
-    case = {"ctor": {"pixel_size": ps, "kernel_params": kp}, "calls": hist, "X": coll}
+    skew = r.random() < 0.6                      # the flag travels with the data: the same value to fit, transform and fit_transform
+    alias = r.random() < 0.25                    # the collection repeats one ndarray OBJECT (a diagram listed twice)
+    case = {"ctor": {"pixel_size": ps, "kernel_params": kp}, "calls": hist, "X": coll, "skew": skew, "alias": alias}
     with np.errstate(all="ignore"):
         obj = i_construct(case["ctor"])
         for c in hist:
@@ -696,6 +698,18 @@ def i_laws(ctx):
         X = [d for d in coll if d] if any(len(d) == 0 for d in coll) else coll
         fitX = [arr(d) for d in X]            # fit rejects empty members; transform accepts them
         trX = [arr(d) for d in coll]
+        # the flag and the aliasing first, on copies of the object: fit(X, skew);transform(X, skew) == fit_transform(X, skew)
+        k1, k2 = copy.deepcopy(obj), copy.deepcopy(obj)
+        kX = fitX + [fitX[0]] if alias else fitX
+        kX0 = [np.array(a, copy=True) for a in kX]
+        k1.fit(kX, skew=skew)
+        ka = k1.transform(kX, skew=skew)
+        kb = k2.fit_transform(kX, skew=skew)
+        if not out_eq(ka, kb) or i_public(k1) != i_public(k2):
+            return False, "fit(X, skew=%s);transform(X, skew=%s) and fit_transform(X, skew=%s) differ%s" % (
+                skew, skew, skew, " (X lists one array object twice)" if alias else ""), case
+        if any(not np.array_equal(a, b) for a, b in zip(kX, kX0)):
+            return False, "fit / transform / fit_transform changed the caller's diagrams", case
         o1, o2, o3 = copy.deepcopy(obj), copy.deepcopy(obj), copy.deepcopy(obj)
         # fit;transform == fit_transform (same data to both)
         o1.fit(fitX)
@@ -955,6 +969,12 @@ def i_law_replay(case):
         coll = case["X"]
         fitX = [arr(d) for d in coll if d]
         trX = [arr(d) for d in coll]
+        if "skew" in case:
+            k1, k2 = copy.deepcopy(obj), copy.deepcopy(obj)
+            kX = fitX + [fitX[0]] if case.get("alias") else fitX
+            k1.fit(kX, skew=case["skew"])
+            if not out_eq(k1.transform(kX, skew=case["skew"]), k2.fit_transform(kX, skew=case["skew"])) or i_public(k1) != i_public(k2):
+                return False, "fit(X, skew);transform(X, skew) != fit_transform(X, skew) for skew=%s" % case["skew"]
         o1, o2 = copy.deepcopy(obj), copy.deepcopy(obj)
         o1.fit(fitX)
         if not out_eq(o1.transform(fitX), o2.fit_transform(fitX)) or i_public(o1) != i_public(o2):
